@@ -13,6 +13,7 @@
 import Mathlib.Tactic.IntervalCases
 import OQuPyVerif.Lemmas.TebdSchedule
 import OQuPyVerif.Lemmas.TebdExtra
+import OQuPyVerif.Lemmas.TebdLindblad
 
 namespace OQuPyVerif.Props.C10
 open OQuPyVerif OQuPyVerif.Tebd OQuPyVerif.Generated
@@ -481,5 +482,125 @@ example (ψ0 : Config → ℚ) (h1 : exNorm.norm 0 ψ0 = 1) (m : ℕ) :
 /-- schedule: the even layer of a six-site chain has three gates; `layer_order_indep` covers
     all `3! = 6` completion orders -/
 example : layerBonds 6 0 = [0, 2, 4] := by decide
+
+/-! ## 6. the Liouvillians the gates are exponentials of
+
+The hypotheses `hg` of `norm_step` (every gate preserves the trace covector) hold for
+`expm(t·L)` when `L` annihilates the trace (`expm` law).  Here: the contributions that
+`SystemChain.add_site_* / add_nn_*` add to `L` — read from the source as sums of
+`coef · np.kron(left, right.T)` terms (`Generated/ChainLindblad.lean`) — annihilate every
+trace-like functional and commute with the adjoint, for ARBITRARY operators (elements of any
+*-algebra; two sites: any multiplicative *-compatible pairing, e.g. the Kronecker product).
+A misplaced dagger or operand order in the source breaks these proofs. -/
+
+section Lindblad
+open OQuPyVerif.Tebd.Lindblad OQuPyVerif.Generated.ChainLindblad
+set_option linter.unusedSimpArgs false
+set_option linter.unusedSectionVars false
+
+variable {K : Type} [Field K] [CharZero K] [StarRing K]
+variable {R : Type} [Ring R] [StarRing R] [Algebra K R] [StarModule K R]
+variable {R1 R2 R12 : Type} [Ring R1] [StarRing R1] [Ring R2] [StarRing R2] [Ring R12] [StarRing R12]
+  [Algebra K R12] [StarModule K R12]
+
+/-- `add_site_dissipation`: `γ(AρA† − ½A†Aρ − ½ρA†A)` has zero trace for every operator `A`,
+    rate `γ`, state `ρ` and every trace-like functional `τ` -/
+theorem site_dissipator_trace_annihilating (τ : R →ₗ[K] K) (hτ : ∀ a b, τ (a * b) = τ (b * a))
+    (imag γ : K) (env : ℕ → R) (x : R) : τ (apply1 imag γ env site_dissipation x) = 0 := by
+  have h : dual1 imag γ env site_dissipation = 0 := by
+    simp only [dual1, site_dissipation, Lindblad.coefVal, evalOp, List.map_cons, List.map_nil,
+      List.sum_cons, List.sum_nil, if_true, mul_one, one_mul, add_zero]
+    push_cast
+    module
+  rw [trace_apply1 τ hτ, h, zero_mul, map_zero]
+
+/-- `add_nn_dissipation`: the two-site dissipator with `A = A_l ⊗ A_r` has zero trace for all
+    operators `A_l`, `A_r` -/
+theorem nn_dissipator_trace_annihilating (tens : R1 → R2 → R12) (hp : Pairing tens)
+    (τ : R12 →ₗ[K] K) (hτ : ∀ a b, τ (a * b) = τ (b * a)) (imag γ : K) (e1 : ℕ → R1)
+    (e2 : ℕ → R2) (x : R12) : τ (apply2 tens imag γ e1 e2 nn_dissipation x) = 0 := by
+  have h : dual2 tens imag γ e1 e2 nn_dissipation = 0 := by
+    simp only [dual2, nn_dissipation, Lindblad.coefVal, evalOp, List.map_cons, List.map_nil,
+      List.sum_cons, List.sum_nil, if_true, mul_one, one_mul, add_zero]
+    push_cast
+    module
+  rw [trace_apply2 tens hp τ hτ, h, zero_mul, map_zero]
+
+/-- `add_site_hamiltonian` / `add_nn_hamiltonian`: the commutator terms have zero trace -/
+theorem hamiltonian_terms_trace_annihilating (tens : R1 → R2 → R12) (hp : Pairing tens)
+    (τ : R →ₗ[K] K) (hτ : ∀ a b, τ (a * b) = τ (b * a))
+    (τ2 : R12 →ₗ[K] K) (hτ2 : ∀ a b, τ2 (a * b) = τ2 (b * a))
+    (imag γ : K) (env : ℕ → R) (e1 : ℕ → R1) (e2 : ℕ → R2) (x : R) (y : R12) :
+    τ (apply1 imag γ env site_hamiltonian x) = 0 ∧
+    τ2 (apply2 tens imag γ e1 e2 nn_hamiltonian y) = 0 := by
+  have h1 : dual1 imag γ env site_hamiltonian = 0 := by
+    simp only [dual1, site_hamiltonian, Lindblad.coefVal, evalOp, List.map_cons, List.map_nil,
+      List.sum_cons, List.sum_nil, mul_one, one_mul, add_zero, Bool.false_eq_true, if_false]
+    push_cast
+    module
+  have h2 : dual2 tens imag γ e1 e2 nn_hamiltonian = 0 := by
+    simp only [dual2, nn_hamiltonian, Lindblad.coefVal, evalOp, List.map_cons, List.map_nil,
+      List.sum_cons, List.sum_nil, mul_one, one_mul, add_zero, Bool.false_eq_true, if_false]
+    push_cast
+    module
+  exact ⟨by rw [trace_apply1 τ hτ, h1, zero_mul, map_zero],
+    by rw [trace_apply2 tens hp τ2 hτ2, h2, zero_mul, map_zero]⟩
+
+/-- both dissipators commute with the adjoint (`(Lρ)† = L(ρ†)`) for all operators and real rates -/
+theorem dissipators_hermiticity_preserving (tens : R1 → R2 → R12) (hp : Pairing tens)
+    (imag γ : K) (himag : star imag = -imag) (hγ : star γ = γ) (env : ℕ → R) (e1 : ℕ → R1)
+    (e2 : ℕ → R2) (x : R) (y : R12) :
+    star (apply1 imag γ env site_dissipation x) = apply1 imag γ env site_dissipation (star x) ∧
+    star (apply2 tens imag γ e1 e2 nn_dissipation y)
+      = apply2 tens imag γ e1 e2 nn_dissipation (star y) := by
+  constructor
+  · simp only [apply1, site_dissipation, Lindblad.coefVal, evalOp, List.map_cons, List.map_nil,
+      List.sum_cons, List.sum_nil, if_true, mul_one, one_mul, add_zero, star_add, star_smul,
+      star_mul, star_star, star_one, star_ratCast, himag, hγ, mul_assoc]
+    push_cast
+    module
+  · simp only [apply2, nn_dissipation, Lindblad.coefVal, evalOp, List.map_cons, List.map_nil,
+      List.sum_cons, List.sum_nil, if_true, mul_one, one_mul, add_zero, star_add, star_smul,
+      star_mul, star_star, star_one, star_ratCast, himag, hγ, mul_assoc, hp.star, hp.one]
+    push_cast
+    module
+
+/-- the commutator terms commute with the adjoint when the Hamiltonian operators are Hermitian -/
+theorem hamiltonian_terms_hermiticity_preserving (tens : R1 → R2 → R12) (hp : Pairing tens)
+    (imag γ : K) (himag : star imag = -imag) (env : ℕ → R) (hH : star (env 0) = env 0)
+    (e1 : ℕ → R1) (e2 : ℕ → R2) (h1 : star (e1 0) = e1 0) (h2 : star (e2 1) = e2 1)
+    (x : R) (y : R12) :
+    star (apply1 imag γ env site_hamiltonian x) = apply1 imag γ env site_hamiltonian (star x) ∧
+    star (apply2 tens imag γ e1 e2 nn_hamiltonian y)
+      = apply2 tens imag γ e1 e2 nn_hamiltonian (star y) := by
+  constructor
+  · simp only [apply1, site_hamiltonian, Lindblad.coefVal, evalOp, List.map_cons, List.map_nil,
+      List.sum_cons, List.sum_nil, mul_one, one_mul, add_zero, star_add, star_smul, star_mul,
+      star_star, star_one, star_ratCast, himag, hH, mul_assoc, Bool.false_eq_true, if_false]
+    push_cast
+    module
+  · simp only [apply2, nn_hamiltonian, Lindblad.coefVal, evalOp, List.map_cons, List.map_nil,
+      List.sum_cons, List.sum_nil, mul_one, one_mul, add_zero, star_add, star_smul, star_mul,
+      star_star, star_one, star_ratCast, himag, h1, h2, mul_assoc, hp.star, hp.one,
+      Bool.false_eq_true, if_false]
+    push_cast
+    module
+
+/-- the hypotheses on the pairing hold for the Kronecker product of matrices -/
+theorem kronecker_is_pairing {n m : Type} [Fintype n] [Fintype m] [DecidableEq n] [DecidableEq m]
+    {F : Type} [CommRing F] [StarRing F] :
+    Pairing (R1 := Matrix n n F) (R2 := Matrix m m F) (R12 := Matrix (n × m) (n × m) F)
+      (fun a b => Matrix.kroneckerMap (· * ·) a b) :=
+  kronecker_pairing
+
+/-- non-vacuity: matrices with the matrix trace and the Kronecker product satisfy the hypotheses
+    (rational entries, trivial conjugation) -/
+example (A B : Matrix (Fin 2) (Fin 2) ℚ) (ρ : Matrix (Fin 2 × Fin 2) (Fin 2 × Fin 2) ℚ) (γ : ℚ) :
+    Matrix.trace (apply2 (K := ℚ) (fun a b => Matrix.kroneckerMap (· * ·) a b) 0 γ
+      (fun k => if k = 0 then A else B) (fun k => if k = 0 then A else B) nn_dissipation ρ) = 0 :=
+  nn_dissipator_trace_annihilating (K := ℚ) _ kronecker_pairing
+    (Matrix.traceLinearMap (Fin 2 × Fin 2) ℚ ℚ) (fun a b => Matrix.trace_mul_comm a b) 0 γ _ _ ρ
+
+end Lindblad
 
 end OQuPyVerif.Props.C10
